@@ -180,31 +180,27 @@ func (engine *Engine) TakeSnapshot() error {
 	}
 
 	// Open manifest file
-	var mf *os.File
+	var md []byte
 	mf, err := os.Open(path.Join(dirname, "manifest.bin"))
 	if err != nil {
 		if errors.Is(err, fs.ErrNotExist) {
-			// Create file if it does not exist
-			mf, err = os.Create(path.Join(dirname, "manifest.bin"))
-			if err != nil {
-				log.Println(err)
-				return err
-			}
+			// No snapshot has been published yet. The manifest is only created once the first snapshot is
+			// completely on disk: an empty manifest left behind by a crash would make every later attempt fail.
 			firstSnapshot = true
 		} else {
 			log.Println(err)
 			return err
 		}
-	}
-
-	md, err := io.ReadAll(mf)
-	if err != nil {
-		log.Println(err)
-		return err
-	}
-	if err := mf.Close(); err != nil {
-		log.Println(err)
-		return err
+	} else {
+		md, err = io.ReadAll(mf)
+		if err != nil {
+			log.Println(err)
+			return err
+		}
+		if err := mf.Close(); err != nil {
+			log.Println(err)
+			return err
+		}
 	}
 
 	manifest := new(Manifest)
@@ -241,9 +237,19 @@ func (engine *Engine) TakeSnapshot() error {
 		return err
 	}
 
-	// os.Create will replace the old manifest file
-	mf, err = os.Create(path.Join(dirname, "manifest.bin"))
-	if err != nil {
+	// The snapshot is written first and published in the manifest last, and each of the two files is written under a
+	// temporary name, synced and renamed into place: whenever the process stops, the manifest names a snapshot that
+	// is completely on disk (the previous one until the final rename, the new one after it).
+
+	// Create snapshot directory
+	dirname = path.Join(engine.directory, "snapshots", fmt.Sprintf("%d", msec))
+	if err := os.MkdirAll(dirname, os.ModePerm); err != nil {
+		log.Println(err)
+		return err
+	}
+
+	// Write state to file
+	if err = replaceFile(path.Join(dirname, "state.bin"), out); err != nil {
 		log.Println(err)
 		return err
 	}
@@ -258,42 +264,9 @@ func (engine *Engine) TakeSnapshot() error {
 		log.Println(err)
 		return err
 	}
-	if _, err = mf.Write(mo); err != nil {
+	if err = replaceFile(path.Join(engine.directory, "snapshots", "manifest.bin"), mo); err != nil {
 		log.Println(err)
 		return err
-	}
-	if err = mf.Sync(); err != nil {
-		log.Println(err)
-	}
-	if err = mf.Close(); err != nil {
-		log.Println(err)
-		return err
-	}
-
-	// Create snapshot directory
-	dirname = path.Join(engine.directory, "snapshots", fmt.Sprintf("%d", msec))
-	if err := os.MkdirAll(dirname, os.ModePerm); err != nil {
-		return err
-	}
-
-	// Create snapshot file
-	f, err := os.OpenFile(path.Join(dirname, "state.bin"), os.O_WRONLY|os.O_CREATE, os.ModePerm)
-	if err != nil {
-		log.Println(err)
-		return err
-	}
-	defer func() {
-		if err := f.Close(); err != nil {
-			log.Println(err)
-		}
-	}()
-
-	// Write state to file
-	if _, err = f.Write(out); err != nil {
-		return err
-	}
-	if err = f.Sync(); err != nil {
-		log.Println(err)
 	}
 
 	// Set the latest snapshot in unix milliseconds
@@ -303,6 +276,28 @@ func (engine *Engine) TakeSnapshot() error {
 	engine.resetChangeCount()
 
 	return nil
+}
+
+// replaceFile gives the file of the given name the given content in one step: the content is written to
+// name + ".tmp" (created or truncated), synced and closed, and that file is then renamed over the name.
+func replaceFile(name string, content []byte) error {
+	tmp := name + ".tmp"
+	f, err := os.Create(tmp)
+	if err != nil {
+		return err
+	}
+	if _, err = f.Write(content); err != nil {
+		_ = f.Close()
+		return err
+	}
+	if err = f.Sync(); err != nil {
+		_ = f.Close()
+		return err
+	}
+	if err = f.Close(); err != nil {
+		return err
+	}
+	return os.Rename(tmp, name)
 }
 
 func (engine *Engine) Restore() error {
